@@ -99,19 +99,23 @@ type csStores struct {
 	item  *csItemStore
 }
 
-func newCsStores() *csStores {
+func newCsStores() *csStores { return newCsStoresAt([]string{"stores"}) }
+
+// newCsStoresAt: the same two stores below an arbitrary base path (C18: the place of a store in the
+// database decides the capacities of the path slices its indexes and symbols keep)
+func newCsStoresAt(basePath []string) *csStores {
 	gs := &csGroupStore{BaseStore: boltz.NewBaseStore(boltz.StoreDefinition[*csGroup]{
 		EntityType:      csTypeGroup,
 		EntityStrategy:  csGroupStrategy{},
 		EntityNotFoundF: func(id string) error { return boltz.NewNotFoundError(csTypeGroup, "id", id) },
-		BasePath:        []string{"stores"},
+		BasePath:        basePath,
 	})}
 	gs.InitImpl(gs)
 	is := &csItemStore{BaseStore: boltz.NewBaseStore(boltz.StoreDefinition[*csItem]{
 		EntityType:      csTypeItem,
 		EntityStrategy:  csItemStrategy{},
 		EntityNotFoundF: func(id string) error { return boltz.NewNotFoundError(csTypeItem, "id", id) },
-		BasePath:        []string{"stores"},
+		BasePath:        basePath,
 	})}
 	is.InitImpl(is)
 
